@@ -15,6 +15,7 @@
 package resolve
 
 import (
+	"slices"
 	"sort"
 	"strings"
 
@@ -160,6 +161,9 @@ func MatchRequirement(req VersionKey, versions []Version) []Version {
 
 // matchNPMRequirement matches npm requirements.
 func matchNPMRequirement(req VersionKey, vers []Version) []Version {
+	// Sort a copy: the slice may be shared with a client and with other
+	// goroutines matching against it at the same time.
+	vers = slices.Clone(vers)
 	sortNPMVersions(vers)
 	constraint, err := req.System.Semver().ParseConstraint(req.Version)
 	if err != nil {
